@@ -607,7 +607,7 @@ func largeFamily(c *vk.Ctx) {
 	var ms []member
 	for _, md := range [][2]int{{4, 4}, {4, 32}, {8, 32}} {
 		for _, data := range []string{"uniform", "clustered"} {
-			for _, path := range []string{"single", "single+batch", "single+fast+refine"} {
+			for _, path := range []string{"single", "single+batch", "single+fast+refine", "fewsingle+batch"} {
 				for _, ev := range []string{"none", "del+vacuum", "refine"} {
 					for _, seed := range []uint64{1, 2} {
 						ms = append(ms, member{md[0], md[1], 400, data, path, ev, seed})
@@ -662,6 +662,9 @@ func largeFamily(c *vk.Ctx) {
 		if mb.path != "single" {
 			first = 100
 		}
+		if mb.path == "fewsingle+batch" {
+			first = 40 // a batch nine times the size of the graph it is added to
+		}
 		for i := 0; i < first; i++ {
 			h.Add(idOf(i), append([]float32(nil), vecs[i]...))
 		}
@@ -670,7 +673,7 @@ func largeFamily(c *vk.Ctx) {
 			for i := first; i < mb.n; i++ {
 				objs = append(objs, types.BatchObject{Id: idOf(i), Vector: append([]float32(nil), vecs[i]...)})
 			}
-			if mb.path == "single+batch" {
+			if mb.path == "single+batch" || mb.path == "fewsingle+batch" {
 				h.AddBatch(objs)
 			} else {
 				h.AddBatchFast(objs)
